@@ -252,7 +252,7 @@ def batches(draw):
     # near-duplicates: same call with one argument changed, to probe collisions
     for _ in range(draw(st.integers(0, 3))):
         s = copy.deepcopy(steps[draw(st.integers(0, len(steps) - 1))])
-        which = draw(st.sampled_from(['a', 'b', 'name', 'usekw', 'i', 'retype', 'retype']))
+        which = draw(st.sampled_from(['a', 'b', 'name', 'usekw', 'i', 'retype', 'retype', 'spaces']))
         s.pop('kwrev', None)
         if which == 'retype':
             # the same call with an argument that is == but of another type (1 / 1.0 / True, 0 / False / 0.0)
@@ -264,6 +264,17 @@ def batches(draw):
             steps.append(base)
             s = copy.deepcopy(base)
             s['a'] = draw(st.sampled_from(forms[1:]))
+            which = 'none'
+        if which == 'spaces':
+            # texts that differ only in white space are different values
+            base = copy.deepcopy(s)
+            pair = draw(st.sampled_from([('new york', 'newyork'), ('ab c', 'a bc'), (' x', 'x'), ('a\tb', 'a b'),
+                                         ({'t': 'dict', 'v': [['k k', 1]]}, {'t': 'dict', 'v': [['kk', 1]]}),
+                                         (['a b', 'c'], ['a', 'b c'])]))
+            base['a'] = pair[0]
+            steps.append(base)
+            s = copy.deepcopy(base)
+            s['a'] = pair[1]
             which = 'none'
         if which in ('a', 'b'):
             s[which] = draw(vals)
